@@ -82,10 +82,14 @@ def rebin(x, d, sample=False):
         sliceobj1 = [slice(None)]*len(d0)
         sliceobj = [slice(None)]*len(d)
         if d[k] > d0[k]:
-            f = d0[k]/d[k]
             for i in range(d[k]):
-                p = f*i
-                fp = int(floor(p))
+                #
+                # Exact integer arithmetic for the subscript: the product
+                # (d0[k]/d[k])*i computed in floating point can fall just
+                # below an integer (e.g. (2/98)*49 = 0.9999999999999999).
+                #
+                fp = (i*d0[k])//d[k]
+                p = (i*d0[k])/d[k]
                 sliceobj0[k] = slice(fp, fp + 1)
                 sliceobj[k] = slice(i, i + 1)
                 if sample:
